@@ -259,8 +259,8 @@ POLLER_INSTR = [
 SPECS["C03"] = dict(
     level="exploration",
     technique="schedule-generating property-based testing of the real poller (Trigger/Polling, both epoll variants) under a harness-owned cooperative scheduler with quiescence detection; engine-level generated request scripts with an exactly-once oracle",
-    rule="layer A: a case is 1..4 producer threads x 1..6 Trigger calls (drawn priorities; some cases preload 1024 urgent + >256 low-priority tasks) plus a schedule over every atomic operation, queue step and eventfd/epoll system call "
-         "(random walk or PCT with 1..3 priority-change points; bounded-exhaustive with <= 2 pre-emptions for the smallest configurations); at quiescence (loop parked in epoll_wait, nothing ready) every accepted task ran exactly once on the loop thread, "
+    rule="layer A: a case is 1..4 producer threads x 1..6 Trigger calls (drawn priorities; some cases preload 1020..1030 urgent and up to 300 low-priority tasks) plus a schedule over every atomic operation, queue step and eventfd/epoll system call "
+         "(random walk, PCT with 1..3 priority-change points, or a random walk in which one producer, after its k-th step inside Trigger, stands still until every other thread is blocked; bounded-exhaustive with <= 3 (thorough 4..5) pre-emptions for the smallest configurations); at quiescence (loop parked in epoll_wait, nothing ready) every accepted task ran exactly once on the loop thread, "
          "high-priority tasks of one producer in issue order; non-trivial = some producer's wake-up CAS lost (it found the flag already set); distinct = distinct schedule",
     assumptions=["every shared access of poller and queue goes through sync/atomic function calls or the eventfd/epoll system calls (the instrumented scheduling points)", "kqueue pollers cannot run on Linux"],
     overlay=["verifx/c03", "pkg/netpoll/zz_verif_vsched_poll_opt.go", "verifx/fx", "verifx/vio"] + VSCHED_OVERLAY,
